@@ -36,7 +36,7 @@ type Config struct {
 func defaultConfig(tier string) *Config {
 	c := &Config{Tier: tier, Unwind: 24, MaxMake: 64, MaxStrCells: 4, EnumBound: 3, SliceBound: 1, MaxMapPerm: 3,
 		StepLimit: 2_000_000, PathLimit: 20000, QueryMs: 20000, Workers: 16, ObTimeoutS: 600, Bounds: map[string]int{}}
-	c.BigAbsBound = new(big.Int).Lsh(big.NewInt(1), 200)
+	c.BigAbsBound = new(big.Int).Lsh(big.NewInt(1), 100)
 	if tier == "thorough" {
 		c.EnumBound = 4
 		c.SliceBound = 2
@@ -303,6 +303,7 @@ type ObResult struct {
 
 func (e *Engine) newMachine() *Machine {
 	in := NewInterner()
+	in.nlUF = true
 	m := &Machine{eng: e, in: in, sol: NewSolver(in, e.cfg.QueryMs), globals: map[*ssa.Global]*Cell{}, initDone: map[*ssa.Package]bool{}, gsnap: map[*ssa.Global]Value{}}
 	return m
 }
@@ -332,11 +333,14 @@ func (m *Machine) resetPath(prefix []int) {
 			c.elems[0] = m.deepCopy(v)
 		}
 	}
+	m.in.nlUF = true
 	m.snaps = nil
 	m.paramProto = map[string]types.Type{}
 	m.paramCells = map[string]*Cell{}
 	m.paramInit = map[string]Value{}
 	m.pathVars = nil
+	m.ufArgs = nil
+	m.payloads = nil
 }
 
 // runPath executes one path of an obligation for the given decision prefix.
